@@ -126,7 +126,10 @@ func grpcTypeMenu() []typeEntry {
 		{Name: "recursive_array", T: User("Tree"), Defs: tree},
 		{Name: "inline_object", T: ObjT([]string{"oa"}, AT(1, "oa", P(KString)), AT(2, "ob", P(KBool)))},
 		{Name: "union_prim", T: &Type{K: KUnion, Attrs: []*Attr{AT(5, "us", P(KString)), AT(6, "ui", P(KInt)), AT(7, "ub", P(KBool))}}},
-		{Name: "union_user", T: &Type{K: KUnion, Attrs: []*Attr{AT(5, "us", P(KString)), AT(6, "uo", User("Inner")), AT(7, "ua", ArrT(P(KString)))}}, Defs: inner},
+		{Name: "union_user", T: &Type{K: KUnion, Attrs: []*Attr{AT(5, "us", P(KString)), AT(6, "uo", User("Inner"))}}, Defs: inner},
+		{Name: "union_alias", T: &Type{K: KUnion, Attrs: []*Attr{AT(5, "us", User("AliasS")), AT(6, "ui", User("AliasI")), AT(7, "uo", User("Inner")), AT(8, "ub", P(KBool))}},
+			Defs: mergeDefs(aliasS, aliasI, inner)},
+		{Name: "union_array", T: &Type{K: KUnion, Attrs: []*Attr{AT(5, "us", P(KString)), AT(6, "ua", ArrT(P(KString)))}}},
 	}
 }
 
@@ -257,6 +260,9 @@ func GRPCTags() []MethodCase {
 	add("map-field-numbers-7,3", []*Attr{AT(7, "aa", MapT(s, i)), AT(3, "bb", MapT(i, s))}, nil)
 	add("union-members-5,6+field-6", []*Attr{AT(1, "aa", &Type{K: KUnion, Attrs: []*Attr{AT(5, "us", s), AT(6, "ui", i)}}), AT(6, "bb", s)}, nil)
 	add("union-members-duplicate", []*Attr{AT(1, "aa", &Type{K: KUnion, Attrs: []*Attr{AT(5, "us", s), AT(5, "ui", i)}})}, nil)
+	aliasDefs := []*TypeDef{{Name: "AliasS", Kind: "alias", Base: P(KString)}, {Name: "AliasI", Kind: "alias", Base: P(KInt32)}, gInner()}
+	add("union-alias-members-4,9+field-2", []*Attr{AT(1, "aa", &Type{K: KUnion, Attrs: []*Attr{AT(4, "us", User("AliasS")), AT(9, "ui", User("AliasI"))}}), AT(2, "bb", s)}, aliasDefs)
+	add("union-mixed-members-3,7,12", []*Attr{AT(1, "aa", &Type{K: KUnion, Attrs: []*Attr{AT(3, "us", User("AliasS")), AT(7, "uo", User("Inner")), AT(12, "up", i)}})}, aliasDefs)
 	add("union-name-equals-member", []*Attr{AT(1, "us", &Type{K: KUnion, Attrs: []*Attr{AT(5, "us", s), AT(6, "ui", i)}})}, nil)
 	add("name-is-keyword", []*Attr{AT(1, "message", s), AT(2, "optional", i), AT(3, "map", s)}, nil)
 	return out
@@ -454,6 +460,35 @@ func GRPCValidation(thorough bool) []MethodCase {
 	one(AT(1, "aa", User("InnerR")), GMessage, false, []*TypeDef{leaf, req}, map[string]string{"valid": "required", "pos": "nested-message-optional-parent"})
 	one(AT(1, "aa", ArrT(User("InnerR"))), GMessage, false, []*TypeDef{leaf, req}, map[string]string{"valid": "required", "pos": "nested-message-in-array"})
 	one(AT(1, "aa", MapT(P(KString), User("InnerR"))), GMessage, false, []*TypeDef{leaf, req}, map[string]string{"valid": "required", "pos": "nested-message-in-map"})
+	// required attributes of every shape, with the request message attributes inferred, listed
+	// explicitly with Message(...), or listed in part
+	{
+		leafOnly := []*TypeDef{leaf}
+		shapes := []struct {
+			name string
+			t    *Type
+		}{
+			{"message", User("Leaf")},
+			{"array-of-message", ArrT(User("Leaf"))},
+			{"map-of-message", MapT(P(KString), User("Leaf"))},
+			{"array", ArrT(P(KString))},
+			{"string", P(KString)},
+			{"int32", P(KInt32)},
+		}
+		for _, sh := range shapes {
+			for _, listing := range []string{"inferred", "listed", "listed-in-part"} {
+				m := GRPCMethod(c.next(), []GAttr{{A: AT(1, "aa", cloneType(sh.t)), Where: GMessage, Req: true}, {A: AT(2, "bb", P(KString)), Where: GMessage}, {A: AT(3, "cc", User("Leaf")), Where: GMessage, Req: true}}, nil)
+				switch listing {
+				case "listed":
+					m.GRPC.Message = []Map{{Attr: "aa"}, {Attr: "bb"}, {Attr: "cc"}}
+				case "listed-in-part":
+					m.GRPC.Message = []Map{{Attr: "aa"}}
+				}
+				m.Feat = map[string]string{"family": "G-valid", "valid": "required", "pos": "top-level-" + sh.name + "-" + listing, "loc": GMessage, "req": "required"}
+				out = append(out, MethodCase{M: m, Types: leafOnly})
+			}
+		}
+	}
 	// the streamed message of a client stream is validated too
 	{
 		m := &Method{Name: c.next(), GRPC: &GRPCMap{}}
